@@ -439,8 +439,12 @@ Definition wf_out (o : outv) : Prop :=
   ov_parse o <> None /\ exists k, ov_addrs o = Some (S k).
 
 Definition wf_store (s : store) : Prop :=
-  forall h i t ht, st_credit s h i = Found t ht ->
-    0 <= i /\ exists o, nth_error t (Z.to_nat i) = Some o /\ wf_out o.
+  exists txof : N -> txv,                       (* a hash names one transaction *)
+    (forall h i t ht, st_credit s h i = Found t ht ->
+       t = txof h /\ 0 <= i /\ exists o, nth_error t (Z.to_nat i) = Some o /\ wf_out o) /\
+    (forall h t, st_unmined s h = Some t -> t = txof h) /\
+    (* ExistsUtxo answers only for a credit (mined or unmined), and credits are made for real outputs *)
+    (forall h i b, st_utxo s h i = Some b -> 0 <= i < lenZ (txof h)).
 
 (* sequential use: nothing changes the current keystore between two reads of one call *)
 Definition sequential (w : wst) : Prop := cur2 w = cur w.
@@ -454,3 +458,26 @@ Definition wf_env (e : env) : Prop :=
 (* the coins an automatic transaction selects are credits of the store *)
 Definition selected_ok (w : wst) (e : env) : Prop :=
   forall h i, In (h, i) (e_selected e) -> exists t ht, st_credit (st w) h i = Found t ht.
+
+(* output indexes of a request are uint32 values *)
+Definition inputs_ok (l : list inp) : Prop := Forall (fun i => 0 <= in_vout i) l.
+Definition req_ok (r : request) : Prop :=
+  match r with
+  | RCreateRawTransaction inputs _ _ _ _ | RWmCreateRawTransaction inputs _ _
+  | RGetTransactionFee _ inputs _ | RWmEstimateManualTxFee inputs => inputs_ok inputs
+  | _ => True
+  end.
+
+(* which switch guards a site: a site without a switch can never fire in a well-formed state *)
+Definition guarded_by (fx : fixes) (p : site) : bool :=
+  match p with
+  | PCtiIndex => fx_cti_index fx
+  | PCtiBlockNil => fx_cti_block fx
+  | PSenders0 => fx_senders fx
+  | PSignMetaNil => fx_sign_meta fx
+  | PExistsTxCurNil | PExistsUtxoCurNil | PBalanceCurNil | PUnspentsCurNil | PFindMaNil | PPubkeyCurNil => fx_cur_nil fx
+  | PImportRecNil => fx_import_rec fx
+  | PTaskChanNil => fx_taskchan fx
+  | PSelectSlice => fx_select_neg fx
+  | _ => true
+  end.
